@@ -163,6 +163,9 @@ func (x *Exec) invariantsFor(fr *Frame, l *loopInfo) (*Contract, []Clause) {
 func (x *Exec) atLoopHeader(st *State, fr *Frame, h *ssa.BasicBlock) {
 	l := x.loopAt(fr.fn, h)
 	c, invs := x.invariantsFor(fr, l)
+	if os.Getenv("GOVC_DEBUG_LOOPS") != "" {
+		fmt.Fprintf(os.Stderr, "at header of loop %d of %s: cut=%v frames=%d\n", l.ord, fr.fn.Name(), fr.cut[h] != nil, len(st.frames))
+	}
 	if cut := fr.cut[h]; cut != nil {
 		// back edge: invariants must be preserved
 		env := x.loopEnv(st, fr, l)
@@ -182,8 +185,7 @@ func (x *Exec) atLoopHeader(st *State, fr *Frame, h *ssa.BasicBlock) {
 		st.dead = true
 		return
 	}
-	fr.cut[h] = &loopCut{}
-	// 1. invariants hold on entry
+	// 1. invariants hold on entry (a state cloned here re-runs the entry: the cut is not set yet)
 	env := x.loopEnv(st, fr, l)
 	for _, cl := range invs {
 		t, err := env.EvalBool(cl.Text)
@@ -193,6 +195,7 @@ func (x *Exec) atLoopHeader(st *State, fr *Frame, h *ssa.BasicBlock) {
 		}
 		x.oblige(st, "invariant-entry", fmt.Sprintf("loop %d invariant on entry: %s", l.ord, cl.Text), t, h.Instrs[0].Pos(), c.clauseProps(cl))
 	}
+	fr.cut[h] = &loopCut{}
 	// 2. havoc
 	x.havocLoop(st, fr, l)
 	if st.dead {
@@ -200,7 +203,9 @@ func (x *Exec) atLoopHeader(st *State, fr *Frame, h *ssa.BasicBlock) {
 	}
 	x.loopHook(st, fr, l, "entry")
 	fr.cut[h].recBase = len(st.rec)
-	// 3. assume invariants
+	// 3. assume invariants (a state cloned from here on continues into the body, with the invariants
+	// assumed so far: weaker, never unsound)
+	fr.headerDone = true
 	env = x.loopEnv(st, fr, l)
 	env.assumeMode = true
 	for _, cl := range invs {
@@ -644,9 +649,15 @@ func (x *Exec) attachSliceFacts(st *State, arr *VAbsArr, t types.Type, v ssa.Val
 			kinds := arr.AwaitKinds
 			name := arr.Name
 			elemT := t.Underlying().(*types.Slice).Elem()
+			// a slice built by append alone holds only what was appended: results of Yield / Spawn, never nil
+			nonNil := appendOnly(fn, sliceGroup(fn, v))
 			arr.ElemGen = func(s *State, idx Term) Value {
 				x.callCounter++
-				return VIface{Nil: x.sym.Fresh(name+".elem.isnil", SBool), Val: VAwait{Sym: true, Kinds: kinds}, Typ: elemT}
+				nilT := x.sym.Fresh(name+".elem.isnil", SBool)
+				if nonNil {
+					nilT = TFalse
+				}
+				return VIface{Nil: nilT, Val: VAwait{Sym: true, Kinds: kinds}, Typ: elemT}
 			}
 		}
 	}
